@@ -97,6 +97,8 @@ class PoolCtx:
         self.simple_holder = None
         self.closing = False        # generator bookkeeping: gather_and_close was requested
         self.unlock_hooks = False   # generator bookkeeping: some user code of this pool calls unlock()
+        self.iter_log = []          # (request call number, inside the request call?) per `__iter__` of a re-iterable argument
+        self.in_request = False
 
     def note_live(self):
         self.maxlive = max(self.maxlive, len(self.live))
@@ -105,6 +107,7 @@ class PoolCtx:
 class ImplWorld:
     def __init__(self):
         self.loop = StepLoop()
+        self.orphans = []                        # futures returned by plain callbacks: nobody awaits them
         self.loop.start()
         self.loopexc = []
         self.loop.set_exception_handler(lambda l, c: self.loopexc.append(c))
@@ -307,9 +310,17 @@ class ImplWorld:
             return f
 
         if spec == "p":
+            # a plain callback may return anything, also an awaitable of its own (a fire-and-forget future): the pool
+            # calls it and goes on — what it returns is none of the pool's business (seed C02_9)
+            returns_future = (ctx.ncbs // 3) % 2 == 1
+
             def cb(tid):
                 begin(tid)
                 ctx.ev.append(f"{pre}d{tid}")
+                if returns_future:
+                    f = W.loop.create_future()
+                    W.orphans.append(f)
+                    return f
             return dress(cb)
         if spec == "x":
             def cb(tid):
@@ -462,12 +473,26 @@ class ImplWorld:
                 ecb_f = self.mkcb(ctx, "end", ecb, hk["e"], holder)
                 ccb_f = self.mkcb(ctx, "cancel", ccb, hk["c"], holder)
                 ctx.ncalls = getattr(ctx, "ncalls", 0) + 1
-                if ctx.ncalls % 2:          # every other request passes everything by position, in signature order
-                    name = meth(f, gen(), int(nc), None if g == "-" else g, ecb_f, ccb_f)
-                else:
-                    name = meth(func=f, num_concurrent=int(nc), group_name=None if g == "-" else g,
-                                end_callback=ecb_f, cancel_callback=ccb_f,
-                                **{{0: "arg_iter", 1: "args_iter", 2: "kwargs_iter"}[stars]: gen()})
+                # the iterable is a generator (an iterator) or, for every other pair of requests, a re-iterable object
+                # whose `__iter__` is observed: the pool starts iterating once, in the spawner, and never for a request it
+                # rejects (seed C09_9)
+                call_no = ctx.ncalls
+
+                class Reiterable:
+                    def __iter__(self_):
+                        ctx.iter_log.append((call_no, ctx.in_request))
+                        return gen()
+                arg = Reiterable() if (ctx.ncalls // 2) % 2 else gen()
+                ctx.in_request = True
+                try:
+                    if ctx.ncalls % 2:          # every other request passes everything by position, in signature order
+                        name = meth(f, arg, int(nc), None if g == "-" else g, ecb_f, ccb_f)
+                    else:
+                        name = meth(func=f, num_concurrent=int(nc), group_name=None if g == "-" else g,
+                                    end_callback=ecb_f, cancel_callback=ccb_f,
+                                    **{{0: "arg_iter", 1: "args_iter", 2: "kwargs_iter"}[stars]: arg})
+                finally:
+                    ctx.in_request = False
                 holder["g"] = name
                 ctx.nreq += 1
                 res = "name:" + name
@@ -575,7 +600,8 @@ class ImplWorld:
              f"f={rd(lambda: p.is_full)} "
              f"l={rd(lambda: p.is_locked)} s={size} z={rd(lambda: self.is_closed(p))} g={';'.join(gs) or '-'} "
              f"ev={','.join(ctx.ev) or '-'} api={','.join(apis) or '-'} amb=0")
-        extra = {"live": len(ctx.live), "maxlive": max(ctx.maxlive, len(ctx.live))}
+        extra = {"live": len(ctx.live), "maxlive": max(ctx.maxlive, len(ctx.live)), "iters": list(ctx.iter_log)}
+        ctx.iter_log.clear()
         ctx.ev.clear()
         ctx.maxlive = len(ctx.live)
         return s, extra
